@@ -49,7 +49,7 @@ NAMES = ["alpha", "beta", "gamma", "delta", "eps", "zeta", "eta", "theta"]
 @st.composite
 def template_program(draw, kinds=None):
     kind = draw(st.sampled_from(kinds)) if kinds else draw(st.sampled_from(["kwargs", "percent-keys", "or-union", "merge-union", "typeddict", "protocol", "in-union",
-                                 "set-literal", "format-keys", "dict-union", "generic-protocol", "generic-protocol", "collect", "collect", "global-rebind", "use-builtin", "shared-generic", "freed-signature", "freed-signature"]))
+                                 "set-literal", "format-keys", "dict-union", "generic-protocol", "generic-protocol", "collect", "collect", "global-rebind", "use-builtin", "shared-generic", "freed-signature", "freed-signature", "generic-union-order"]))
     names = draw(st.lists(st.sampled_from(NAMES), min_size=3, max_size=6, unique=True))
     head = "from typing import *\nfrom typing_extensions import *\n"
     if kind == "generic-protocol":
@@ -59,6 +59,15 @@ def template_program(draw, kinds=None):
         t = draw(st.sampled_from(["int", "str", "float", "bytes"]))
         u = draw(st.sampled_from(["int", "str", "float", "list[int]", "list[str]"]))
         return head + f"def want(x: {proto}[{t}]) -> None: ...\ndef g(i: {u}):\n    want(i)\n"
+    if kind == "generic-union-order":
+        # the same generic classes with the same union arguments written in another order by every program of a pool:
+        # whatever is remembered per (class, type arguments) must not carry one program's spelling into another
+        ts = draw(st.permutations(["int", "str", "bytes"]))
+        us = draw(st.permutations(["float", "None", "bytes"]))
+        a, b = " | ".join(ts[:2]), " | ".join(us)
+        return head + (f"def want(x: complex) -> None: ...\ndef g(xs: list[{a}], d: dict[str, {b}], t: tuple[{a}, ...], s: set[{a}]):\n"
+                       "    want(xs[0])\n    want(xs.pop())\n    for x in xs:\n        want(x)\n    want(d['k'])\n    want(d.get('k'))\n"
+                       "    want(t[0])\n    want(next(iter(s)))\n    want(next(iter(xs)))\n    return d.popitem()\n")
     if kind == "freed-signature":
         # objects that die during a check (signatures of nested functions, created and dropped with the enclosing
         # scope) followed by callables whose signatures are created afterwards: anything remembered by id() of a
@@ -332,8 +341,9 @@ def run_shard(spec):
     @hypothesis.seed(seed)
     @runner.hyp_settings(8, shrink=False)
     @given(st.lists(program_strategy(), min_size=9, max_size=9),
-           st.lists(template_program(kinds=["global-rebind", "use-builtin", "generic-protocol", "shared-generic", "shared-generic"]),
-                    min_size=5, max_size=5))
+           st.lists(template_program(kinds=["global-rebind", "use-builtin", "generic-protocol", "shared-generic", "shared-generic",
+                                            "generic-union-order", "generic-union-order", "generic-union-order"]),
+                    min_size=7, max_size=7))
     def draw_pool(ps, probes):
         # every pool holds a few programs that write or read state shared between checks
         pool_holder.append(list(ps) + list(probes))
